@@ -369,6 +369,10 @@ impl ViCut {
 		}
 		self.mode = Box::new(ViNormal::new());
 		self.current_buffer().stop_selecting();
+		// The session is over for undo as well: what comes next is a change of its own
+		if let Some(edit) = self.current_buffer().undo_stack.last_mut() {
+			edit.stop_merge();
+		}
 		// Where the closed insert session began is of no concern to the next command (it bounds ctrl-w only)
 		self.current_buffer().clear_insert_mode_start_pos();
 		if should_go_back_one {
